@@ -22,6 +22,9 @@ pub struct Entry {
     pub ptr_fields: Vec<String>,
     pub traced_fields: Vec<String>,
     pub gate: String,
+    pub params: Vec<(String, usize, &'static str)>, // (name, position, role)
+    pub field_params: Vec<usize>,
+    pub free_lifetimes: Vec<String>,
 }
 
 pub struct Table {
@@ -394,6 +397,45 @@ impl<'ast> Visit<'ast> for FieldScan {
     }
 }
 
+/// Does type `t` mention identifier `id` outside of `PhantomData<…>`?
+fn mentions_outside_phantom(t: &Type, id: &str) -> bool {
+    match t {
+        Type::Paren(p) => mentions_outside_phantom(&p.elem, id),
+        Type::Group(p) => mentions_outside_phantom(&p.elem, id),
+        Type::Reference(r) => mentions_outside_phantom(&r.elem, id),
+        Type::Ptr(r) => mentions_outside_phantom(&r.elem, id),
+        Type::Slice(r) => mentions_outside_phantom(&r.elem, id),
+        Type::Array(r) => mentions_outside_phantom(&r.elem, id),
+        Type::Tuple(tu) => tu.elems.iter().any(|e| mentions_outside_phantom(e, id)),
+        Type::Path(tp) => {
+            if last_seg(&tp.path) == "PhantomData" {
+                return false;
+            }
+            if let Some(q) = &tp.qself {
+                if mentions_outside_phantom(&q.ty, id) {
+                    return true;
+                }
+            }
+            if tp.path.segments.first().map(|sg| sg.ident == id).unwrap_or(false) {
+                return true;
+            }
+            for sg in &tp.path.segments {
+                if let PathArguments::AngleBracketed(a) = &sg.arguments {
+                    for g in &a.args {
+                        if let GenericArgument::Type(t2) = g {
+                            if mentions_outside_phantom(t2, id) {
+                                return true;
+                            }
+                        }
+                    }
+                }
+            }
+            false
+        }
+        other => mentions_ident(other, id), // fn pointers, trait objects, …: conservatively "mentions"
+    }
+}
+
 pub fn extract(c: &Crate, items: &Items, raw: &Raw) -> Table {
     let mut t = Table {
         entries: vec![],
@@ -682,6 +724,133 @@ pub fn extract(c: &Crate, items: &Items, raw: &Raw) -> Table {
                 t.unclassified.push(format!("{hdr}: {p}"));
             }
         }
+        // ---- per-parameter roles, fields of crate-defined types, lifetimes ------------------------
+        // Collect-bounded parameters: `P: Collect<'gc>` or `P::Item: Collect<'gc>`, inline or in `where`
+        let mut collect_bounded: Vec<String> = vec![];
+        {
+            let mut note = |bounded: String, bounds: &syn::punctuated::Punctuated<TypeParamBound, Token![+]>| {
+                for b in bounds {
+                    if let TypeParamBound::Trait(tb) = b {
+                        if last_seg(&tb.path) == "Collect" {
+                            let head = bounded.split("::").next().unwrap_or("").trim().to_string();
+                            collect_bounded.push(head);
+                        }
+                    }
+                }
+            };
+            for gp in &i.generics.params {
+                if let GenericParam::Type(tp) = gp {
+                    note(tp.ident.to_string(), &tp.bounds);
+                }
+            }
+            if let Some(w) = &i.generics.where_clause {
+                for pr in &w.predicates {
+                    if let WherePredicate::Type(pt) = pr {
+                        note(toks(&pt.bounded_ty).replace(' ', ""), &pt.bounds);
+                    }
+                }
+            }
+        }
+        for pn in &tparams {
+            let pos = pos_names.iter().position(|x| x == pn).unwrap_or(99);
+            let role = if collect_bounded.contains(pn) {
+                if e.traced.contains(&pos) { "traced" } else { "collectOnly" }
+            } else if st.contains(pn) {
+                "static"
+            } else {
+                "unbounded" // includes parameters bounded only by `'gc`
+            };
+            e.params.push((pn.clone(), pos, role));
+        }
+        // types defined in the crate: which parameters occur in a field (outside PhantomData)
+        if let Some(p) = type_path(&i.self_ty) {
+            let full = c.resolve(module, &path_segs(p), p.leading_colon.is_some()).join("::");
+            if full.starts_with("crate::") && !tparams.is_empty() {
+                let name = last_seg(p);
+                let mut found = false;
+                for (_, sdef) in &items.structs {
+                    if sdef.ident != name {
+                        continue;
+                    }
+                    found = true;
+                    let sparams = type_params(&sdef.generics);
+                    for (k, sp) in sparams.iter().enumerate() {
+                        if sdef.fields.iter().any(|f| mentions_outside_phantom(&f.ty, sp)) {
+                            e.field_params.push(k);
+                        }
+                    }
+                }
+                for (_, sdef) in &items.enums {
+                    if sdef.ident != name {
+                        continue;
+                    }
+                    found = true;
+                    let sparams = type_params(&sdef.generics);
+                    for (k, sp) in sparams.iter().enumerate() {
+                        if sdef.variants.iter().any(|v| v.fields.iter().any(|f| mentions_outside_phantom(&f.ty, sp))) {
+                            e.field_params.push(k);
+                        }
+                    }
+                }
+                if !found {
+                    t.unclassified.push(format!("{hdr}: definition of the crate type {name} not found (fields unknown)"));
+                }
+            }
+        }
+        // lifetimes of the self type: `'gc` (the trait's), `'static`, or bounded by `'static`
+        {
+            let trait_lt: Vec<String> = tp
+                .segments
+                .last()
+                .map(|sg| match &sg.arguments {
+                    PathArguments::AngleBracketed(a) => {
+                        a.args.iter().filter_map(|g| if let GenericArgument::Lifetime(l) = g { Some(l.ident.to_string()) } else { None }).collect()
+                    }
+                    _ => vec![],
+                })
+                .unwrap_or_default();
+            let mut static_lts: Vec<String> = vec!["static".into()];
+            for gp in &i.generics.params {
+                if let GenericParam::Lifetime(lp) = gp {
+                    if lp.bounds.iter().any(|b| b.ident == "static") {
+                        static_lts.push(lp.lifetime.ident.to_string());
+                    }
+                }
+            }
+            if let Some(w) = &i.generics.where_clause {
+                for pr in &w.predicates {
+                    if let WherePredicate::Lifetime(pl) = pr {
+                        if pl.bounds.iter().any(|b| b.ident == "static") {
+                            static_lts.push(pl.lifetime.ident.to_string());
+                        }
+                    }
+                }
+            }
+            let mut seen: Vec<String> = vec![];
+            let mut prev_tick = false;
+            fn walk(ts: proc_macro2::TokenStream, prev_tick: &mut bool, out: &mut Vec<String>) {
+                for tt in ts {
+                    match tt {
+                        proc_macro2::TokenTree::Group(g) => walk(g.stream(), prev_tick, out),
+                        proc_macro2::TokenTree::Punct(p) => *prev_tick = p.as_char() == '\'',
+                        proc_macro2::TokenTree::Ident(id) => {
+                            if *prev_tick {
+                                out.push(id.to_string());
+                            }
+                            *prev_tick = false;
+                        }
+                        _ => *prev_tick = false,
+                    }
+                }
+            }
+            use quote::ToTokens;
+            walk(i.self_ty.to_token_stream(), &mut prev_tick, &mut seen);
+            for l in seen {
+                if !trait_lt.contains(&l) && !static_lts.contains(&l) && !e.self_static && !e.free_lifetimes.contains(&l) {
+                    e.free_lifetimes.push(l);
+                }
+            }
+        }
         t.entries.push(e);
     }
     if !saw_gc {
@@ -704,7 +873,7 @@ impl Table {
             .iter()
             .map(|e| {
                 format!(
-                    "    {{ shape := {}, text := {}, nparams := {}, constNeeds := {}, disjuncts := {}, traced := {}, direct := {},\n      guards := [{}], staticParams := {}, selfStatic := {}, ptrFields := {}, tracedFields := {}, gate := {} }}",
+                    "    {{ shape := {}, text := {}, nparams := {}, constNeeds := {}, disjuncts := {}, traced := {}, direct := {},\n      guards := [{}], staticParams := {}, selfStatic := {}, ptrFields := {}, tracedFields := {},\n      params := [{}], fieldParams := {}, freeLifetimes := {}, gate := {} }}",
                     e.shape,
                     lean_str(&e.text),
                     e.nparams,
@@ -717,6 +886,9 @@ impl Table {
                     lean_bool(e.self_static),
                     lean_list(&e.ptr_fields.iter().map(|x| lean_str(x)).collect::<Vec<_>>()),
                     lean_list(&e.traced_fields.iter().map(|x| lean_str(x)).collect::<Vec<_>>()),
+                    e.params.iter().map(|(n, p, r)| format!("⟨{}, {}, .{}⟩", lean_str(n), p, r)).collect::<Vec<_>>().join(", "),
+                    lean_nat_list(&e.field_params),
+                    lean_list(&e.free_lifetimes.iter().map(|x| lean_str(x)).collect::<Vec<_>>()),
                     lean_str(&e.gate)
                 )
             })
@@ -744,7 +916,7 @@ impl Table {
             .iter()
             .map(|e| {
                 format!(
-                    "{{\"shape\":{},\"text\":{},\"nparams\":{},\"const_needs\":{},\"disjuncts\":{:?},\"traced\":{:?},\"direct\":{:?},\"guards\":{:?},\"static_params\":{:?},\"self_static\":{},\"ptr_fields\":[{}],\"traced_fields\":[{}],\"gate\":{}}}",
+                    "{{\"shape\":{},\"text\":{},\"nparams\":{},\"const_needs\":{},\"disjuncts\":{:?},\"traced\":{:?},\"direct\":{:?},\"guards\":{:?},\"static_params\":{:?},\"self_static\":{},\"ptr_fields\":[{}],\"traced_fields\":[{}],\"params\":[{}],\"field_params\":{:?},\"free_lifetimes\":[{}],\"gate\":{}}}",
                     json_str(&e.shape_key),
                     json_str(&e.text),
                     e.nparams,
@@ -757,6 +929,9 @@ impl Table {
                     e.self_static,
                     e.ptr_fields.iter().map(|x| json_str(x)).collect::<Vec<_>>().join(","),
                     e.traced_fields.iter().map(|x| json_str(x)).collect::<Vec<_>>().join(","),
+                    e.params.iter().map(|(n, p, r)| format!("{{\"name\":{},\"pos\":{},\"role\":{}}}", json_str(n), p, json_str(r))).collect::<Vec<_>>().join(","),
+                    e.field_params,
+                    e.free_lifetimes.iter().map(|x| json_str(x)).collect::<Vec<_>>().join(","),
                     json_str(&e.gate)
                 )
             })
